@@ -79,6 +79,20 @@ func c11Gen(seed uint64, run int, tier string) *Case {
 				// a second request under the same tag waits behind the parked one when the connection goes
 				c.Ops = append(c.Ops, reqOp(ci, ti, i, mode, r.Pct(15), cnt, r.Pct(40), 0))
 				c.Ops = append(c.Ops, sharedReqOp(ci, r.Intn(nWTypes), i, PNow, false, r.Pick(0, 1, 3), r.Pct(40), 0))
+				if r.Pct(40) {
+					// a third one behind them, and a Tflush of the tag: it cancels the youngest, the others are still there
+					c.Ops = append(c.Ops, sharedReqOp(ci, r.Intn(nWTypes), i, PNow, false, r.Pick(0, 1, 3), r.Pct(40), 0))
+					c.Ops = append(c.Ops, flushOp(ci, 700+i, i, r.Pick(fpWhenHeld, fpNoWait), r.Pct(50)))
+				}
+				continue
+			}
+			if ci == 0 && (mode == PHold || mode == PAsync) && r.Pct(20) {
+				// two or three Tflush of the parked request are waiting for it (the implementation does not cancel
+				// it) when the connection goes
+				c.Ops = append(c.Ops, reqOp(ci, ti, i, mode, r.Pct(15), cnt, r.Pct(40), 0))
+				for k := r.Range(2, 3); k > 0; k-- {
+					c.Ops = append(c.Ops, flushOp(ci, 400+100*k+i, i, r.Pick(fpWhenHeld, fpNoWait), r.Pct(50)))
+				}
 				continue
 			}
 			if ci == 0 && c.Cfg["flushop"] != 0 && (mode == PHold || mode == PAsync) && r.Pct(60) {
@@ -428,6 +442,7 @@ func c11Version(x *Ctx) {
 	r := NewRand(c.Seed ^ 0x11b)
 	n := int(c.cfg("nreq"))
 	setup, sentAll := false, false
+	noread, waitQuiet, quiet := c.Seed%4 == 1, false, 0
 	rt.Go(rt.SiteSpawn, func() {
 		rt.SetName("victim")
 		for _, sc := range []*SConn{victim, by} {
@@ -475,6 +490,13 @@ func c11Version(x *Ctx) {
 			}
 		}
 		ms1 = append(ms1, &Msg{Type: Tversion, Tag: NOTAG, Msize: ms, Version: "9P2000.u"})
+		if noread {
+			// the victim stops taking replies off a transport that holds 24 bytes: the server's sender gets stuck in
+			// the middle of a reply with the Tversion (handled on the reader) waiting behind it, and then the victim goes
+			victim.Srv.Out.Cap = 24
+			p.StopReading = true
+			x.Fault("stall")
+		}
 		var vs *Sent
 		if c.cfg("sameseg") != 0 {
 			ss := p.Write(ms1...)
@@ -484,7 +506,12 @@ func c11Version(x *Ctx) {
 				vs = p.Write(m)[0]
 			}
 		}
-		rt.YieldUntil(rt.SiteActor, func() bool { return vs.Reply != nil || p.EOF })
+		if noread {
+			waitQuiet = true
+			rt.YieldUntil(rt.SiteActor, func() bool { return quiet > 0 || p.EOF })
+		} else {
+			rt.YieldUntil(rt.SiteActor, func() bool { return vs.Reply != nil || p.EOF })
+		}
 		sentAll = true
 		x.Fault("cut-eof")
 		victim.Clnt.Close()
@@ -492,6 +519,10 @@ func c11Version(x *Ctx) {
 	for {
 		if !x.Run() {
 			return
+		}
+		if waitQuiet && quiet == 0 {
+			quiet++ // nothing moves any more: the victim may go
+			continue
 		}
 		held := fs.HeldInvs()
 		if len(held) == 0 {
